@@ -96,13 +96,13 @@ Init ==
                <<<<<<which, "currentColor">>>> \o (IF own = "attr" THEN <<<<"color", "red">>>> ELSE <<>>), <<>>,
                  IF own = "inline" THEN <<<<"color", "navy">>>> ELSE <<>>>>>>, E0, E0>>,
            IF own = "rule" THEN <<<<"id", "r", <<<<"color", "yellow">>>>>>>> ELSE <<>>, cc)
-  \/ \E fo \in {"none", "attr", "inline", "parent"}, so \in {"none", "attr", "parent"} :
+  \/ \E fo \in {"none", "attr", "inline", "parent", "attr0", "parent0"}, so \in {"none", "attr", "parent", "attr0"} :
         Mk("opacity",
-           <<Root, <<"g", "", 0, FALSE, <<>>, <<(IF fo = "parent" THEN <<<<"fill-opacity", Q(1, 4)>>>> ELSE <<>>) \o
+           <<Root, <<"g", "", 0, FALSE, <<>>, <<(IF fo = "parent" THEN <<<<"fill-opacity", Q(1, 4)>>>> ELSE IF fo = "parent0" THEN <<<<"fill-opacity", RZero>>>> ELSE <<>>) \o
                                                 (IF so = "parent" THEN <<<<"stroke-opacity", Q(1, 2)>>>> ELSE <<>>), <<>>, <<>>>>>>,
              <<"rect", "", 0, FALSE, RectGeo,
-               <<<<<<"fill", "red">>, <<"stroke", "blue">>>> \o (IF fo = "attr" THEN <<<<"fill-opacity", Q(1, 2)>>>> ELSE <<>>) \o
-                 (IF so = "attr" THEN <<<<"stroke-opacity", Q(3, 4)>>>> ELSE <<>>), <<>>,
+               <<<<<<"fill", "red">>, <<"stroke", "blue">>>> \o (IF fo = "attr" THEN <<<<"fill-opacity", Q(1, 2)>>>> ELSE IF fo = "attr0" THEN <<<<"fill-opacity", RZero>>>> ELSE <<>>) \o
+                 (IF so = "attr" THEN <<<<"stroke-opacity", Q(3, 4)>>>> ELSE IF so = "attr0" THEN <<<<"stroke-opacity", RZero>>>> ELSE <<>>), <<>>,
                  IF fo = "inline" THEN <<<<"fill-opacity", Q(3, 4)>>>> ELSE <<>>>>>>, E0, E0>>,
            <<>>, "black")
   \/ \E ve \in {"none", "attr", "inline", "rule", "attr_none"}, gtf \in {0, 2, 7}, nested \in BOOLEAN, vb \in {1, 2}, shtf \in {0, 2} :
@@ -137,6 +137,23 @@ Init ==
                 <<(IF child = "attr_inline" THEN <<<<"display", "inline">>>> ELSE <<>>), <<>>, (IF child = "style_inline" THEN <<<<"display", "inline">>>> ELSE <<>>)>>>>,
               E0, <<"circle", "b", 1, FALSE, <<A(5), A(6), A(7)>>, NoPaint>>, E0>>,
             IF gsrc = "rule" THEN <<<<"id", "h", <<<<"display", "none">>>>>>>> ELSE <<>>, "black")
+  \/ \E sel \in {"class", "type", "id", "*"}, first \in {"stroke-width", "stroke"}, third \in BOOLEAN :
+        \* several rules with the SAME selector accumulate (later declarations win property by property)
+        LET arg == CASE sel = "class" -> "k" [] sel = "type" -> "rect" [] sel = "id" -> "r" [] sel = "*" -> ""
+            r1 == <<sel, arg, <<<<"stroke-width", I(4)>>>>>>
+            r2 == <<sel, arg, <<<<"stroke", "blue">>>>>>
+            r3 == <<sel, arg, <<<<"stroke-width", I(6)>>>>>>
+        IN Mk("tworules",
+              <<Root, <<"rect", "r", 0, FALSE, RectGeo, <<<<<<"fill", "lime">>>>, <<"k">>, <<>>>>>>, E0>>,
+              (IF first = "stroke-width" THEN <<r1, r2>> ELSE <<r2, r1>>) \o (IF third THEN <<r3>> ELSE <<>>), "black")
+  \/ \E src \in {"attr", "inline", "rule", "parent"}, tf \in {0, 2} :
+        \* a stroke width of exactly zero is a value like any other
+        Mk("zerowidth",
+           <<Root, <<"g", "", tf, FALSE, <<>>, <<(IF src = "parent" THEN <<<<"stroke-width", RZero>>>> ELSE <<>>), <<>>, <<>>>>>>,
+             <<"rect", "r", 0, FALSE, RectGeo,
+               <<<<<<"stroke", "red">>>> \o (IF src = "attr" THEN <<<<"stroke-width", RZero>>>> ELSE <<>>), <<>>,
+                 (IF src = "inline" THEN <<<<"stroke-width", RZero>>>> ELSE <<>>)>>>>, E0, E0>>,
+           IF src = "rule" THEN <<<<"id", "r", <<<<"stroke-width", RZero>>>>>>>> ELSE <<>>, "black")
 Next == UNCHANGED vars
 
 \* ---- laws of the specification ---------------------------------------------
